@@ -20,6 +20,7 @@
 //   throws <nothing|expected|other>             CHECK_THROWS(int, expr)
 //   enumt <tu> <te> <ve> <ta> <va>              ENUMS_EQUAL_INT_TEXT (tu=i32) / ENUMS_EQUAL_TYPE_TEXT (tu=u16); echoed as `enum`
 //   seq <step>...                               several check statements in one test body (stop at the first failure)
+//   seqc <step>...                              the same with crash-on-fail terminators (-f mode), crash method replaced by a counter
 //   evals <MACRO> <e0> <estep> <a0> <astep>     operands that change with every evaluation: evaluation counts, warnings
 // every macro also in its _TEXT form (name + _TEXT)
 #include "fixture.h"
@@ -593,10 +594,16 @@ void do_step(int k) {
 }
 std::vector<int> g_steps;
 void seq_body() { for (size_t i = 0; i < g_steps.size(); i++) do_step(g_steps[i]); }
+// seqc: the same body with UtestShell::setCrashOnFail() in force (the -f command line mode): every failing check goes
+// through CrashingTestTerminator / CrashingTestTerminatorWithoutExceptions, which call UtestShell::crash() (replaced by a
+// counting function here) and then leave the test like the normal terminators.  Extra observation: crashed <calls>
+int g_crash_calls = 0;
+void counting_crash() { g_crash_calls++; }
 bool op_seq(const vh::Words& w) {
     if (w.size() < 2) return false;
+    bool crash_mode = w[0] == "seqc";
     g_steps.clear();
-    std::string echo = "> seq";
+    std::string echo = crash_mode ? "> seqc" : "> seq";
     for (size_t i = 1; i < w.size(); i++) {
         int k = -1;
         for (int j = 0; step_names[j]; j++) if (w[i] == step_names[j]) k = j;
@@ -606,9 +613,23 @@ bool op_seq(const vh::Words& w) {
     }
     vh::emit("%s", echo.c_str());
     g_ran = 0;
-    Result r = run_fn(seq_body);
+    g_crash_calls = 0;
+    if (crash_mode) { UtestShell::setCrashMethod(counting_crash); UtestShell::setCrashOnFail(); }
+    bool failed_flag;
+    Result r;
+    {
+        TestTestingFixture fixture;
+        fixture.setTestFunction(seq_body);
+        fixture.runAllTests();
+        r.failures = fixture.getFailureCount();
+        r.checks = fixture.getCheckCount();
+        failed_flag = fixture.hasTestFailed();
+    }
+    if (crash_mode) { UtestShell::restoreDefaultTestTerminator(); UtestShell::resetCrashMethod(); }
     report(r);
     vh::emit("ran %d", g_ran);
+    vh::emit("failed %d", failed_flag ? 1 : 0);
+    if (crash_mode) vh::emit("crashed %d", g_crash_calls);
     return true;
 }
 
@@ -620,10 +641,39 @@ int next_value(int i) { long k = g_ev[i][2]++; return (int) (g_ev[i][0] + k * g_
 void evals_equal_body() { CHECK_EQUAL(next_value(0), next_value(1)); }
 void evals_compare_body() { CHECK_COMPARE(next_value(0), <, next_value(1)); }
 void evals_longs_body() { LONGS_EQUAL(next_value(0), next_value(1)); }
+enum EvEnum { ev_zero = 0 };
+struct EvalsBody { const char* name; void (*fn)(); };
+const EvalsBody evals_bodies[] = {
+    { "CHECK_EQUAL_TEXT", [] { CHECK_EQUAL_TEXT(next_value(0), next_value(1), "text"); } },
+    { "CHECK_COMPARE_ge", [] { CHECK_COMPARE(next_value(0), >=, next_value(1)); } },
+    { "UNSIGNED_LONGS_EQUAL", [] { UNSIGNED_LONGS_EQUAL(next_value(0), next_value(1)); } },
+    { "LONGLONGS_EQUAL", [] { LONGLONGS_EQUAL(next_value(0), next_value(1)); } },
+    { "UNSIGNED_LONGLONGS_EQUAL", [] { UNSIGNED_LONGLONGS_EQUAL(next_value(0), next_value(1)); } },
+    { "BYTES_EQUAL", [] { BYTES_EQUAL(next_value(0), next_value(1)); } },
+    { "SIGNED_BYTES_EQUAL", [] { SIGNED_BYTES_EQUAL((signed char) next_value(0), (signed char) next_value(1)); } },
+    { "BITS_EQUAL", [] { BITS_EQUAL(next_value(0), next_value(1), 0xff); } },
+    { "ENUMS_EQUAL_INT", [] { ENUMS_EQUAL_INT((EvEnum) next_value(0), (EvEnum) next_value(1)); } },
+    { "DOUBLES_EQUAL", [] { DOUBLES_EQUAL((double) next_value(0), (double) next_value(1), 0.5); } },
+    { "POINTERS_EQUAL", [] { POINTERS_EQUAL((void*) (long) next_value(0), (void*) (long) next_value(1)); } },
+    { "C_INT", [] { CHECK_EQUAL_C_INT(next_value(0), next_value(1)); } },
+    { "C_LONG", [] { CHECK_EQUAL_C_LONG(next_value(0), next_value(1)); } },
+    { "C_BOOL", [] { CHECK_EQUAL_C_BOOL(next_value(0), next_value(1)); } },
+    { "C_UBYTE", [] { CHECK_EQUAL_C_UBYTE((unsigned char) next_value(0), (unsigned char) next_value(1)); } },
+    { "C_BITS", [] { CHECK_EQUAL_C_BITS(next_value(0), next_value(1), 0xff); } },
+    { "C_REAL", [] { CHECK_EQUAL_C_REAL((double) next_value(0), (double) next_value(1), 0.5); } },
+    // one operand: only the `expected` stream is used
+    { "CHECK", [] { CHECK(next_value(0)); } },
+    { "CHECK_TRUE", [] { CHECK_TRUE(next_value(0)); } },
+    { "CHECK_FALSE", [] { CHECK_FALSE(next_value(0)); } },
+    { "CHECK_C", [] { CHECK_C(next_value(0)); } },
+    // CHECK_EQUAL_ZERO(actual): only the `actual` stream is used
+    { "CHECK_EQUAL_ZERO", [] { CHECK_EQUAL_ZERO(next_value(1)); } },
+    { 0, 0 } };
 bool op_evals(const vh::Words& w) {
     if (w.size() != 6) return false;
     void (*fn)() = w[1] == "CHECK_EQUAL" ? evals_equal_body : w[1] == "CHECK_COMPARE_lt" ? evals_compare_body :
                    w[1] == "LONGS_EQUAL" ? evals_longs_body : 0;
+    for (int i = 0; !fn && evals_bodies[i].name; i++) if (w[1] == evals_bodies[i].name) fn = evals_bodies[i].fn;
     if (!fn) return false;
     for (int i = 0; i < 2; i++) {
         g_ev[i][0] = (int) vh::to_i64(w[2 + 2 * i]); g_ev[i][1] = (int) vh::to_i64(w[3 + 2 * i]); g_ev[i][2] = 0;
@@ -660,7 +710,7 @@ void run_case(const vh::Case& c) {
         else if (w[0] == "enumt") done = op_enum(w);
         else if (w[0] == "zero") done = op_zero(w);
         else if (w[0] == "throws") done = op_throws(w);
-        else if (w[0] == "seq") done = op_seq(w);
+        else if (w[0] == "seq" || w[0] == "seqc") done = op_seq(w);
         else if (w[0] == "evals") done = op_evals(w);
         if (!done) vh::emit("> skip");
     }
